@@ -29,7 +29,7 @@ type Prog struct {
 	// all source functions of the module (incl. anonymous), generic origins rather than instances
 	Funcs []*ssa.Function
 	// callers index: static callee -> call sites
-	cg *CallGraph
+	cg          *CallGraph
 	bfCallbacks map[*ssa.Function][]ssa.CallInstruction
 }
 
